@@ -9,7 +9,7 @@ LEVEL_NOTE_COMMON = (
     "Trusted: Coq 8.16.1 kernel + vm_compute; the hand-written Gallina model (tied to /repo by the "
     "correspondence check that runs model and implementation on the same inputs, by data regenerated from "
     "the imported modules and - where named - by programs/methods regenerated from the source by the fail-closed "
-    "translators harness/robot_translate.py, harness/pytr.py, harness/exec_translate.py, harness/c15_translate.py and harness/c08_translate.py, whose reading of each Python statement form is trusted); "
+    "translators harness/robot_translate.py, harness/pytr.py, harness/exec_translate.py, harness/c15_translate.py, harness/c08_translate.py, harness/c12_translate.py and harness/c14_translate.py, whose reading of each Python statement form is trusted); "
     "the Python harness; CPython/wpilib-sim/ntcore. No axioms of our own; "
     "Print Assumptions of every property theorem is checked on every run. ")
 
@@ -60,10 +60,12 @@ CLAIMED = {
              "one effective first state and at most one default (errors sound); the reversed-MRO dict.update fold is attribute lookup; a "
              "signature is rejected iff first parameter is not self, or *args/**kw/keyword-only, or a name outside the four; name collision "
              "iff in the reserved list (regenerated from hasattr/annotations of StateMachine every run); alias/owner checks; direct call is "
-             "IllegalCall; state_names exact, duplicate-free, bases-first order, descriptions aligned. Tied by correspondence on generated "
+             "IllegalCall; state_names exact, duplicate-free, bases-first order, descriptions aligned. Tied to the source twice: _State.__init__ "
+             "(signature loop), the three decorators, _get_class_members and _build_states are regenerated from the current source on every run "
+             "and proved equal to the model's functions (c12_translate, Defs/SrcDefsProofs.v); and by correspondence on generated "
              "class definitions (exhaustive over reserved names x decorators and short signatures).",
         note="Closed under the global context. C3 MRO, inspect.signature, name mangling are inputs of the model (trusted CPython).",
-        technique="Coq proof (induction over class-body lists) + regenerated reserved-name list + correspondence evaluated in Coq",
+        technique="Coq proof (induction over class-body lists) + definition-time code regenerated from the source and proved equal to the model (c12_translate) + regenerated reserved-name list + correspondence evaluated in Coq",
         design="6.2"),
     "C01": dict(
         text="Theorems (Coq, every machine shape, every user code, every history/clock pattern, any nesting of next_state_now): the request "
@@ -119,10 +121,12 @@ CLAIMED = {
              "modules, once each, keyed by MODE_NAME; chooser offers them plus 'None' with the DEFAULT preselected; without FMS discover raises iff duplicate / "
              "several defaults / import failure / constructor failure; with FMS healthy modes are still offered (under no key clash); dashboard string wins over "
              "the chooser; lifecycle: per period on_enable . on_iteration(t)* . on_disable of the selected mode only, t non-decreasing, nothing after on_disable. "
-             "Code-narrower-than-wording cases are stated as refutation theorems and documented. Tied by correspondence on generated packages on disk + run() periods "
-             "under the stepped simulated clock.",
+             "Code-narrower-than-wording cases are stated as refutation theorems and documented. Tied to the source twice: the lifecycle methods "
+             "(_on_autonomous_enable, _on_iteration, disable, start, periodic, endCompetition) are regenerated from the current source on every run and proved "
+             "equal to the model's step function (c14_translate, Selector/SrcLifecycleProofs.v); discovery and run() by correspondence on generated packages "
+             "on disk + run() periods under the stepped simulated clock.",
         note="Closed under the global context. Glob order, inspect.getmembers order, SendableChooser/NetworkTables/Timer are inputs or simple models validated by correspondence; mode callbacks assumed non-raising here (fault space is C07).",
-        technique="Coq proof (induction over layouts and op sequences) + correspondence on generated packages evaluated in Coq", design="6.7"),
+        technique="Coq proof (induction over layouts and op sequences) + lifecycle methods regenerated from the source and proved equal to the model (c14_translate) + correspondence on generated packages evaluated in Coq", design="6.7"),
     "C05": dict(
         text="Theorems (Coq, every robot layout, every history of driver-station words incl. endCompetition): the robot makes exactly the calls of "
              "the specification in order (with the FMS attached: whatever raises); per pass the mode's own code, then execute() of every component in "
